@@ -265,7 +265,10 @@ OUTSIDE["C13"] = [
     "and direct reads at the offsets of the written header, for models with at most one element per section",
     "model sections that own a Vec per record (textures, attachments, cameras, lights: CBMC out of memory at model level; decided at record level only), "
     "particle / ribbon emitters, texture / colour / transparency animations, colour replacements",
-    "preserved key-frame data (raw_data.*_animation_data and its HashMap offset relocation), embedded skins at model level (only their element-size constants)",
+    "preserved key-frame data (raw_data.*_animation_data): its collection from a parsed file, the construction of the old-offset -> new-offset map and "
+    "the relocation of particle / ribbon / texture / colour / transparency / event / attachment / camera / light records - decided is only the relocation "
+    "step for bones (relocate_bone_track_offsets, maps of <= 3 entries, on the association-list model of HashMap); embedded skins at model level (only "
+    "their element-size constants)",
     "textures with a file name at model level (the writer fails on them: KF-C13-model-texture-filename)",
     "chunked (MD21) files and Legion+ file-id chunks",
     "version conversion of whole models (M2Model::convert, M2Converter paths): decided for the header and for sequences; bone / vertex / texture / material "
